@@ -1,5 +1,6 @@
 import OrsoVerif.Model.Kernels
 import OrsoVerif.Lemmas.Frame
+import OrsoVerif.Lemmas.CallSites
 /-!
 # C10 — Native kernels match their Python definitions and are bounds-safe
 
@@ -11,7 +12,7 @@ What is proved instead is `collect_safe_partial`: reads stay inside the rows whe
 collected row is a tuple at least as wide as the first row.
 -/
 namespace C10
-open Kernels
+open Kernels CallSites
 
 variable {α : Type}
 
@@ -62,17 +63,29 @@ theorem mapM_isSome {β γ : Type} (l : List β) (f : β → Option γ)
       | none => rw [hm] at hxs; cases hxs
       | some vs => rfl
 
-/-- The 1-, 2- and many-column code paths are the same function. -/
+/-- The 1-, 2- and many-column code paths are the same function: the specialised widths and the
+`columns` positions they read (`Gen.Kernels.fastWidth*`, `path*Src*`, from the source) are wired as the
+general double loop is. -/
 theorem paths_agree (rows : List (RowObj α)) (cols : List Nat) : paths rows cols = pathN rows cols := by
   unfold paths
-  split
-  · rename_i c0
-    simp only [path1, pathN, List.mapM_cons, List.mapM_nil]
+  have h1 : Gen.Kernels.fastWidth1 = 1 := rfl
+  have h2 : Gen.Kernels.fastWidth2 = 2 := rfl
+  have s1 : Gen.Kernels.path1Src = 0 := rfl
+  have s20 : Gen.Kernels.path2Src0 = 0 := rfl
+  have s21 : Gen.Kernels.path2Src1 = 1 := rfl
+  rw [h1, h2, s1, s20, s21]
+  match cols with
+  | [] => simp
+  | [c0] =>
+    simp only [List.length_singleton, if_true, List.getElem?_cons_zero, Option.bind_some, path1, pathN,
+      List.mapM_cons, List.mapM_nil]
     cases rows.mapM (fun r => readCell r c0) <;> simp
-  · rename_i c0 c1
-    simp only [path2, pathN, List.mapM_cons, List.mapM_nil, mapM_pair]
+  | [c0, c1] =>
+    simp only [List.length_cons, List.length_nil, Nat.reduceAdd, Nat.succ_ne_self, Nat.reduceEqDiff,
+      if_false, if_true, List.getElem?_cons_zero, List.getElem?_cons_succ, path2, pathN,
+      List.mapM_cons, List.mapM_nil, mapM_pair]
     cases rows.mapM (fun r => readCell r c0) <;> cases rows.mapM (fun r => readCell r c1) <;> simp
-  · rfl
+  | _ :: _ :: _ :: _ => simp
 
 /-- All rows are collected unless `0 ≤ limit < len(rows)`: a negative limit or one at or beyond
 the row count means all rows. -/
@@ -305,11 +318,252 @@ theorem extract_spec (null : α) (fields : List String) (d : List (String × α)
   refine ⟨by simp [DictRow.extract], ?_⟩
   intro i; simp [DictRow.extract]
 
+/-- **Field extraction is memory-safe and is the plain definition**: with the field count, allocation
+size and loop bound the source has now (`Gen.Kernels.extract*`), every `fields[i]` read stays inside
+the tuple, every `field_data[i]` write inside the list, and the result is the per-field lookup. -/
+theorem extract_safe (null : α) (fields : List String) (d : List (String × α)) :
+    extractLoop null fields d = some (DictRow.extract null fields d) := by
+  unfold extractLoop Gen.Kernels.extractCount Gen.Kernels.extractBound Gen.Kernels.extractAlloc
+  simp only [Int.toNat_natCast]
+  rw [CallSites.loop_prefix null fields d fields.length (Nat.le_refl _)]
+  simp [DictRow.extract]
+
 /-- Non-vacuity. -/
 example : collect [⟨true, [1, 2, 3]⟩, ⟨true, [4, 5, 6]⟩, ⟨true, [7, 8, 9]⟩] [2, 0] 2
     = (.ok [[3, 6], [1, 4]] : Outcome Nat) := by decide
 example : collect [⟨true, [1, 2]⟩] [2] 0 = (.raises "IndexError" : Outcome Nat) ∧
     collect [⟨true, [1, 2]⟩] [-1] 5 = (.raises "IndexError" : Outcome Nat) := by decide
 example : dataWidth [some 2, none, some 7, some 5] = 7 ∧ dataWidth [some 1, none] = 4 := by decide
+
+/-! ## The Python call sites (`DataFrame.collect`, `Row.__new__`, `ascii_table`) -/
+
+/-- What the limit must be when it reaches the kernel. -/
+def limitOk (n : Nat) (limit : Option Int) : Option Int → Prop
+  | some l => FitsC (Gen.CallSites.kernelLimit l)
+      ∧ effectiveRows n (Gen.CallSites.kernelLimit l) = specRows n limit
+  | none => False
+
+/-- **Limit normalisation at the call site**: whatever limit the caller of `DataFrame.collect` passes —
+`None`, negative, zero, inside, at or beyond the row count, beyond a C `int` — the value that reaches
+`collect_cython` (through the generated `limitSteps` and `kernelLimit`) fits a C `int` and makes the
+kernel collect exactly the rows of the plain-Python definition (`specRows`). -/
+theorem norm_limit_spec (n : Nat) (hn : (n : Int) < 2147483648) (limit : Option Int) :
+    limitOk n limit (normLimit limit n) := by
+  have hiff : ∀ l : Int, Gen.Kernels.limitApplies l n ↔ (l ≥ 0 ∧ l < (n : Int)) := by
+    intro l; unfold Gen.Kernels.limitApplies; exact Iff.rfl
+  -- every `if` is decided by linear arithmetic in each of the cases below, whatever shape the
+  -- generated guards have
+  cases limit with
+  | none =>
+    rcases Nat.eq_zero_or_pos n with h0 | h0 <;>
+      (try simp [normLimit, applyLimitStep]) <;>
+      (repeat (first | rw [if_pos (by omega)] | rw [if_neg (by omega)])) <;>
+      (try simp [limitOk, effectiveRows, specRows, FitsC, hiff]) <;>
+      (repeat (first | rw [if_pos (by omega)] | rw [if_neg (by omega)])) <;>
+      (try dsimp only) <;>
+      (repeat (first | rw [if_pos (by omega)] | rw [if_neg (by omega)])) <;>
+      (try omega)
+  | some l =>
+    rcases Int.lt_trichotomy l 0 with h1 | h1 | h1 <;> rcases Int.lt_trichotomy l n with h2 | h2 | h2 <;>
+      (try simp [normLimit, applyLimitStep]) <;>
+      (repeat (first | rw [if_pos (by omega)] | rw [if_neg (by omega)])) <;>
+      (try simp [limitOk, effectiveRows, specRows, FitsC, hiff]) <;>
+      (repeat (first | rw [if_pos (by omega)] | rw [if_neg (by omega)])) <;>
+      (try dsimp only) <;>
+      (repeat (first | rw [if_pos (by omega)] | rw [if_neg (by omega)])) <;>
+      (try omega)
+
+theorem public_collect_spec [Inhabited α] (names : List String) (first : RowObj α) (rest : List (RowObj α))
+    (cols : List ColRef) (idxs : List Int) (limit : Option Int) (w : Nat)
+    (hn : (((first :: rest).length : Nat) : Int) < 2147483648) (hw32 : (w : Int) ≤ 2147483648)
+    (hw : ∀ r ∈ first :: rest, r.isTuple = true ∧ r.cells.length = w)
+    (hres : cols.mapM (resolve names) = some idxs)
+    (hc : ∀ c ∈ idxs, 0 ≤ c ∧ c < (w : Int)) (hne : cols ≠ []) :
+    publicCollect names (first :: rest) cols false limit =
+      .many (idxs.map fun c =>
+        ((first :: rest).take (specRows (first :: rest).length limit)).map fun r => r.cells[c.toNat]!) := by
+  have hlen := mapM_length _ cols idxs hres
+  have hine : idxs ≠ [] := by
+    intro h; rw [h] at hlen; exact hne (List.length_eq_zero_iff.mp hlen.symm)
+  have hok := norm_limit_spec (first :: rest).length hn limit
+  unfold publicCollect
+  rw [hres]
+  simp only [fits_any_false idxs w hw32 hc, Bool.false_eq_true, if_false]
+  cases hnl : normLimit limit (first :: rest).length with
+  | none => rw [hnl] at hok; exact absurd hok (by simp [limitOk])
+  | some l =>
+    rw [hnl] at hok
+    obtain ⟨hf, he⟩ := hok
+    simp only [hf, not_true_eq_false, if_false]
+    rw [collect_spec first rest idxs _ w hw hc hine, he]
+
+/-- A single column (by index or by name): the column itself, not a one-row matrix. -/
+theorem public_collect_single_spec [Inhabited α] (names : List String) (first : RowObj α)
+    (rest : List (RowObj α)) (c : ColRef) (i : Int) (limit : Option Int) (w : Nat)
+    (hn : (((first :: rest).length : Nat) : Int) < 2147483648) (hw32 : (w : Int) ≤ 2147483648)
+    (hw : ∀ r ∈ first :: rest, r.isTuple = true ∧ r.cells.length = w)
+    (hres : resolve names c = some i) (hc : 0 ≤ i ∧ i < (w : Int)) :
+    publicCollect names (first :: rest) [c] true limit =
+      .one (((first :: rest).take (specRows (first :: rest).length limit)).map fun r => r.cells[i.toNat]!) := by
+  have hres' : [c].mapM (resolve names) = some [i] := by simp [hres]
+  have hc' : ∀ x ∈ [i], 0 ≤ x ∧ x < (w : Int) := by intro x hx; simp at hx; subst hx; exact hc
+  have hok := norm_limit_spec (first :: rest).length hn limit
+  unfold publicCollect
+  rw [hres']
+  simp only [fits_any_false [i] w hw32 hc', Bool.false_eq_true, if_false]
+  cases hnl : normLimit limit (first :: rest).length with
+  | none => rw [hnl] at hok; exact absurd hok (by simp [limitOk])
+  | some l =>
+    rw [hnl] at hok
+    obtain ⟨hf, he⟩ := hok
+    simp only [hf, not_true_eq_false, if_false]
+    rw [collect_spec first rest [i] _ w hw hc' (by simp), he]
+    simp
+
+/-- A frame without rows: every request gives empty columns (nothing is read). -/
+theorem public_collect_empty (names : List String) (cols : List ColRef) (idxs : List Int)
+    (limit : Option Int) (hres : cols.mapM (resolve names) = some idxs)
+    (hfit : ∀ c ∈ idxs, FitsC c) :
+    publicCollect names ([] : List (RowObj α)) cols false limit = .many (idxs.map fun _ => []) := by
+  have hok := norm_limit_spec 0 (by decide) limit
+  have hany : idxs.any (fun i => decide (¬ FitsC i)) = false := by
+    rw [List.any_eq_false]; intro c hcm; simp [hfit c hcm]
+  unfold publicCollect
+  rw [hres]
+  simp only [hany, Bool.false_eq_true, if_false, List.length_nil]
+  cases hnl : normLimit limit 0 with
+  | none => rw [hnl] at hok; exact absurd hok (by simp [limitOk])
+  | some l =>
+    rw [hnl] at hok
+    obtain ⟨hf, _⟩ := hok
+    simp only [hf, not_true_eq_false, if_false, (collect_empty ([] : List (RowObj α)) idxs _).1]
+
+/-- A resolved index outside `0..width-1` raises a Python exception through the public call as
+well (whenever there is a row), for every limit. -/
+theorem public_collect_bad_index_raises (names : List String) (first : RowObj α)
+    (rest : List (RowObj α)) (cols : List ColRef) (idxs : List Int) (single : Bool) (limit : Option Int)
+    (hn : (((first :: rest).length : Nat) : Int) < 2147483648)
+    (hres : cols.mapM (resolve names) = some idxs)
+    (c : Int) (hc : c ∈ idxs) (hbad : c < 0 ∨ (first.cells.length : Int) ≤ c) :
+    ∃ cls, publicCollect names (first :: rest) cols single limit = .raises cls := by
+  have hok := norm_limit_spec (first :: rest).length hn limit
+  unfold publicCollect
+  rw [hres]
+  by_cases hany : idxs.any (fun i => decide (¬ FitsC i)) = true
+  · exact ⟨"OverflowError", by simp only [hany, if_true]⟩
+  · simp only [hany, Bool.false_eq_true, if_false]
+    cases hnl : normLimit limit (first :: rest).length with
+    | none => rw [hnl] at hok; exact absurd hok (by simp [limitOk])
+    | some l =>
+      rw [hnl] at hok
+      obtain ⟨hf, _⟩ := hok
+      simp only [hf, not_true_eq_false, if_false, collect_oob_raises first rest idxs _ c hc hbad]
+      exact ⟨_, rfl⟩
+
+/-- A column name that the frame does not have raises (`tuple.index`), and a name it has resolves
+to the first column of that name. -/
+theorem public_collect_names (names : List String) (s : String) :
+    (s ∉ names → ∀ (rows : List (RowObj α)) (pre post : List ColRef) (single : Bool) (limit : Option Int),
+        publicCollect names rows (pre ++ .name s :: post) single limit = .raises "ValueError")
+    ∧ (∀ k : Int, resolve names (.name s) = some k →
+        0 ≤ k ∧ names[k.toNat]? = some s ∧ ∀ j, j < k.toNat → names[j]? ≠ some s) := by
+  refine ⟨?_, ?_⟩
+  · intro hs rows pre post single limit
+    have hnone : DictRow.indexOf names s = none := by
+      cases h : DictRow.indexOf names s with
+      | none => rfl
+      | some k => exact absurd (List.mem_of_getElem? (indexOf_spec names s k h).1) hs
+    have : (pre ++ ColRef.name s :: post).mapM (resolve names) = none := by
+      induction pre with
+      | nil => simp [resolve, hnone]
+      | cons p ps ih => simp only [List.cons_append, List.mapM_cons, ih]; cases resolve names p <;> rfl
+    unfold publicCollect
+    rw [this]
+  · intro k hk
+    simp only [resolve, Option.map_eq_some_iff] at hk
+    obtain ⟨k', hk', rfl⟩ := hk
+    have := indexOf_spec names s k' hk'
+    exact ⟨by simp, by simpa using this.1, by simpa using this.2⟩
+
+/-- **Field extraction through the caller**: a row built from a dictionary through a class made by
+`Row.create_class(fields)` holds the dictionary's value, or null, for each field in order — and a
+row built from a tuple is that tuple. -/
+theorem row_from_dict_spec (null : α) (fields : List String) (d : List (String × α)) (t : List α) :
+    rowNew null (createClass fields false) (.dict d) = some (fields.map fun f => (DictRow.lookup f d).getD null)
+    ∧ ∀ b, rowNew null (createClass fields b) (.tuple t) = some t := by
+  refine ⟨rfl, fun _ => rfl⟩
+
+/-- …whatever other row classes are created before or after it: the class with number `k` builds
+the same row at every later point of a session. -/
+theorem row_class_independent (null : α) (reg : List RowClass) (k : Nat) (c : RowClass)
+    (hk : reg[k]? = some c) (arg : RowArg α) (creates : List (List String × Bool)) :
+    runOps null reg (creates.map (fun p => ClassOp.create p.1 p.2) ++ [ClassOp.build k arg])
+      = [rowNew null c arg] := by
+  induction creates generalizing reg with
+  | nil => simp [runOps, hk]
+  | cons p ps ih =>
+    simp only [List.map_cons, List.cons_append, runOps]
+    apply ih
+    rw [List.getElem?_append_left (by
+      have := (List.getElem?_eq_some_iff.mp hk).1; exact this)]
+    exact hk
+
+/-- A single column of a frame without rows is the empty column. -/
+theorem public_collect_single_empty (names : List String) (c : ColRef) (i : Int) (limit : Option Int)
+    (hres : resolve names c = some i) (hfit : FitsC i) :
+    publicCollect names ([] : List (RowObj α)) [c] true limit = .one [] := by
+  have hok := norm_limit_spec 0 (by decide) limit
+  have hres' : [c].mapM (resolve names) = some [i] := by simp [hres]
+  unfold publicCollect
+  rw [hres']
+  simp only [List.any_cons, List.any_nil, hfit, not_true_eq_false, decide_false, Bool.or_false,
+    Bool.false_eq_true, if_false, List.length_nil]
+  cases hnl : normLimit limit 0 with
+  | none => rw [hnl] at hok; exact absurd hok (by simp [limitOk])
+  | some l =>
+    rw [hnl] at hok
+    obtain ⟨hf, _⟩ := hok
+    simp only [hf, not_true_eq_false, if_false, (collect_empty ([] : List (RowObj α)) [i] _).1]
+    simp
+
+/-- `t.collect(i, <measure>)` of the display collects every row of the printed frame. -/
+theorem measure_all_rows (n : Nat) (limit : Int) : specRows n (Gen.CallSites.measureLimit limit) = n := by
+  simp [specRows]
+
+/-- **The display's data width**: for every printed frame `t` (head only, head + tail, or the whole
+table; eager or lazy) and every `limit`, the width measured for column `i` is the longest rendered
+non-null value among *all* rows of `t`, but at least four. -/
+theorem display_widths_spec (names : List String) (trows : List (RowObj (Option Nat))) (limit : Int)
+    (hn : ((trows.length : Nat) : Int) < 2147483648) (hw32 : ((names.length : Nat) : Int) ≤ 2147483648)
+    (hw : ∀ r ∈ trows, r.isTuple = true ∧ r.cells.length = names.length) :
+    displayDataWidths names trows limit =
+      (List.range names.length).map fun i => some (dataWidth (trows.map fun r => r.cells[i]!)) := by
+  unfold displayDataWidths
+  apply List.map_congr_left
+  intro i hi
+  have hi' : i < names.length := List.mem_range.mp hi
+  cases trows with
+  | nil =>
+    rw [public_collect_single_empty names (.idx (Int.ofNat i)) (Int.ofNat i) _ rfl
+      (by unfold FitsC; simp only [Int.ofNat_eq_natCast]; omega)]
+    simp
+  | cons first rest =>
+    rw [public_collect_single_spec names first rest (.idx (Int.ofNat i)) (Int.ofNat i)
+      (Gen.CallSites.measureLimit limit) names.length hn hw32 hw rfl (by simp; omega)]
+    simp only [measure_all_rows, List.take_length]
+    simp
+
+/-- Non-vacuity of the call-site theorems. -/
+example : publicCollect ["a", "b"] [⟨true, [1, 2]⟩, ⟨true, [3, 4]⟩, ⟨true, [5, 6]⟩] [.name "b", .idx 0] false (some 0)
+    = (.many [[], []] : PubOutcome Nat) ∧
+  publicCollect ["a", "b"] [⟨true, [1, 2]⟩, ⟨true, [3, 4]⟩, ⟨true, [5, 6]⟩] [.name "b", .idx 0] false (some 2)
+    = (.many [[2, 4], [1, 3]] : PubOutcome Nat) ∧
+  publicCollect ["a", "b"] [⟨true, [1, 2]⟩, ⟨true, [3, 4]⟩] [.name "b"] true none
+    = (.one [2, 4] : PubOutcome Nat) ∧
+  publicCollect ["a", "b"] [⟨true, [1, 2]⟩, ⟨true, [3, 4]⟩] [.idx 0] false (some 4294967296)
+    = (.many [[1, 3]] : PubOutcome Nat) := by decide
+example : rowNew 0 (createClass ["x", "y", "z"] false) (.dict [("z", 3), ("x", 1), ("q", 9)]) = some [1, 0, 3] := by decide
+example : displayDataWidths ["a", "b"] [⟨true, [some 2, none]⟩, ⟨true, [some 1, some 3]⟩, ⟨true, [some 9, some 12]⟩] 1
+    = [some 9, some 12] := by decide
 
 end C10
